@@ -10,4 +10,7 @@ open Strengths.Gen.PyNumeric
 limited number of digits (the model computes its values exactly and its texts through `repr`) -/
 theorem rdsystem_full_precision : fullPrecision inv_rdsystem = true := by decide +kernel
 
+/-- `rdsystem.py` takes no maximum / minimum / absolute value and swallows no exception: nothing it computes is clamped -/
+theorem rdsystem_no_clamping : clamp_rdsystem = [] := by decide +kernel
+
 end Strengths.PyNumeric
